@@ -475,8 +475,7 @@ def _pbs(tier, rnd):
     return specs
 
 
-def _specs(tier, seed):
-    rnd = random.Random(seed)
+def _specs(tier, rnd):
     specs = []
     specs += _pbs(tier, rnd)
     specs += _kfold_exhaustive(tier, rnd)
@@ -488,7 +487,7 @@ def _specs(tier, seed):
     return specs
 
 
-def _run(specs):
+def _run(specs, rnd):
     import verde  # noqa: F401  (imported before forking)
     if len(specs) < 200 or core.NPROC <= 1:
         res = [_work(s) for s in specs]
@@ -510,15 +509,17 @@ def _run(specs):
         _STATS[kind] = _STATS.get(kind, 0) + 1
         cases.append(c)
     # spread the expensive (large random) cases evenly over the shards
-    random.Random(len(cases)).shuffle(cases)
+    rnd.shuffle(cases)
     return cases
 
 
 def generate(tier, seed):
     _EXCLUDED["float_size_quirk"] = 0
     _STATS.clear()
-    return _run(_specs(tier, seed))
+    rnd = random.Random(seed)
+    return _run(_specs(tier, rnd), rnd)
 
 
 def search(dis, tier, seed):
-    return _run(_specs("thorough" if tier == "quick" else "quick", seed + 1))
+    rnd = random.Random(seed + 1)
+    return _run(_specs("thorough" if tier == "quick" else "quick", rnd), rnd)
